@@ -19,7 +19,7 @@ N_LONG = {'quick': 240, 'thorough': 20000}       # scale regime: 900-1600 timest
 BOX = {'quick': dict(starts=range(-3, 4), ends=range(-2, 7), freqs=range(1, 5), T=22),
        'thorough': dict(starts=range(-6, 7), ends=range(-3, 17), freqs=range(1, 8), T=40)}
 RULE = ('cases: (a) seeded scripts: 1-8 systems with start in [-6,12], frequency in [1,7], end in {default, start-3..start+15} '
-        '(so end<start occurs), registered/removed at chunk boundaries during timesteps 0..~60, advanced by a random mix of '
+        '(so end<start occurs), registered/removed at chunk boundaries during timesteps 0..~60 (identifiers also as str-subclass instances, window numbers also as numpy integers, falsy system objects, models with a quiet user logger), advanced by a random mix of '
         'execute(), execute(n<=6) and systems.execute_systems(), each replayed one step at a time on a twin model, with '
         'invalid-n probes at random states; (b) clock-warp scripts crossing sys.maxsize; (c) every (start,end,frequency) of '
         'a box with one system over timesteps 0..T (exhaustive); (e) long runs: 900-1600 timesteps, frequencies up to 200, ends on and around 256/512/768/1024, execute(n) with n up to the whole run, long stretches without registry changes; (d) spawner scripts: a highest-priority system registers/removes '
@@ -29,7 +29,7 @@ RULE = ('cases: (a) seeded scripts: 1-8 systems with start in [-6,12], frequency
 ASSUMPTIONS = ['systems only log (timestep, id) in execute()', 'clock-warp cases assign SystemManager.timestep (documented attribute)',
                'bool / numpy integer n may be either rejected or treated as that many steps (the property only requires '
                'rejecting non-integers and n<1)']
-FLOORS = {'quick': {'decisions_ran': 5000, 'decisions_not_ran': 5000, 'multi_step_calls': 1000, 'rejected_n_value': 300,
+FLOORS = {'quick': {'falsy_system_objects': 715, 'decisions_ran': 5000, 'decisions_not_ran': 5000, 'multi_step_calls': 1000, 'rejected_n_value': 300,
                     'rejected_n_type': 300, 'windows_negative_start': 300, 'windows_end_before_start': 100,
                     'late_registrations': 300, 'warp_cases': 20, 'box_windows': 140, 'collector_windows': 500, 'long_runs': 120, 'long_run_timesteps': 100000, 'spawn_cases': 200,
                     'mid_step_registry_changes': 1000,
@@ -67,6 +67,10 @@ def _fixtures():
             self.log.append((t, self.id))
 
     WinSystem.Collector = WinCollector
+    # falsy-but-valid user systems: container-like (len = pending jobs = 0) and switch-like (bool False)
+    WinSystem.variants = [WinSystem, type('WinSystemSized', (WinSystem,), {'__len__': lambda self: 0}),
+                          type('WinSystemOff', (WinSystem,), {'__bool__': lambda self: False})]
+    WinCollector.variants = [WinCollector, type('WinCollectorSized', (WinCollector,), {'__len__': lambda self: len(self.records)})]
     return core, WinSystem
 
 
@@ -105,7 +109,9 @@ def probe_invalid_n(ctx, rng, model, log, exp_t):
 def case_script(ctx, case):
     rng = ctx.rng('script', case['i'])
     core, WinSystem = _fixtures()
-    model, twin = core.Model(), core.Model()
+    from vlib import reps
+    quiet = rng.random() < 0.3          # a user-supplied logger on which INFO is off
+    model, twin = (core.Model(logger=reps.quiet_logger()), core.Model(logger=reps.quiet_logger())) if quiet else (core.Model(), core.Model())
     log, tlog = [], []
     k = rng.randint(1, 8)
     wins = []
@@ -114,16 +120,20 @@ def case_script(ctx, case):
         freq = rng.randint(1, 7)
         endk = rng.random()
         end = sys.maxsize if endk < 0.3 else start + rng.randint(-3, 15)
-        wins.append({'id': f'w{j}', 'start': start, 'end': end, 'freq': freq, 'default_end': endk < 0.3,
+        wins.append({'id': reps.as_str(rng, f'w{j}', allow_enum=False), 'start': start, 'end': end, 'freq': freq, 'default_end': endk < 0.3,
                      'prio': rng.randint(-2, 2)})
     objs, tobjs = {}, {}
     for w in wins:
-        kw = dict(priority=w['prio'], frequency=w['freq'], start=w['start'])
+        # window numbers may arrive as numpy integers (read from a parameter array)
+        kw = dict(priority=reps.as_int(rng, w['prio']), frequency=reps.as_int(rng, w['freq']), start=reps.as_int(rng, w['start']))
         if not w['default_end']:
-            kw['end'] = w['end']
+            kw['end'] = reps.as_int(rng, w['end'])
         cls = WinSystem.Collector if rng.random() < 0.3 else WinSystem
         if cls is not WinSystem:
             ctx.count('collector_windows')
+        cls = reps.pick_variant(rng, cls.variants)
+        if cls not in (WinSystem, WinSystem.Collector):
+            ctx.count('falsy_system_objects')
         objs[w['id']] = cls(w['id'], model, log, **kw)
         tobjs[w['id']] = cls(w['id'], twin, tlog, **kw)
     registered = []
